@@ -1,6 +1,6 @@
 (* C12 - hashmap.nelua, part 5: clear, value update, iteration (pairs), removal while iterating,
    one step of the driver against the association-list specification, whole histories. *)
-From Coq Require Import ZArith List Bool Lia Arith.
+From Coq Require Import ZArith List Bool Lia Arith Permutation.
 From C12 Require Import Gen Model ProofsBase ProofsVec ProofsAL ProofsHM1 ProofsHM2 ProofsHM3 ProofsHM4.
 Import ListNotations.
 
@@ -13,7 +13,6 @@ Section HM5.
   Variable vdflt : V.
   Variable keqb : K -> K -> bool.
   Variable khash : K -> Z.
-  Hypothesis keqb_refl : forall a, keqb a a = true.
   Hypothesis keqb_sym : forall a b, keqb a b = keqb b a.
   Hypothesis keqb_trans : forall a b c, keqb a b = true -> keqb b c = true -> keqb a c = true.
   Hypothesis hash_coh : forall a b, keqb a b = true -> khash a = khash b.
@@ -118,7 +117,7 @@ Section HM5.
     exists m', hm_rehash K V kdflt vdflt keqb khash n m = Ok m' /\ hm_inv m' /\ hm_abs m' = hm_abs m.
   Proof.
     intros n m (ch & fl & I).
-    destruct (hm_rehash_ok K V kdflt vdflt keqb khash keqb_refl keqb_sym keqb_trans n m (KU_of_inv K V keqb khash _ _ _ I) (inv_size _ _ _ _ _ _ _ I))
+    destruct (hm_rehash_ok K V kdflt vdflt keqb khash keqb_sym n m (KU_of_inv K V keqb khash _ _ _ I) (inv_size _ _ _ _ _ _ _ I))
       as [(-> & _)|(m' & -> & I' & A & _)]; [left; reflexivity|right]. eauto.
   Qed.
 
@@ -128,7 +127,7 @@ Section HM5.
     (2 ^ 62 < Z.of_nat (Nat.max n (ceilidiv (hsize m * 100) HM_MAXLF_n)))%Z.
   Proof.
     intros n m (ch & fl & I) H.
-    destruct (hm_rehash_ok K V kdflt vdflt keqb khash keqb_refl keqb_sym keqb_trans n m (KU_of_inv K V keqb khash _ _ _ I) (inv_size _ _ _ _ _ _ _ I))
+    destruct (hm_rehash_ok K V kdflt vdflt keqb khash keqb_sym n m (KU_of_inv K V keqb khash _ _ _ I) (inv_size _ _ _ _ _ _ _ I))
       as [(_ & B)|(m' & E & _)]; [assumption|]. rewrite E in H. discriminate.
   Qed.
 
@@ -190,7 +189,9 @@ Section HM5.
     rewrite firstn_skipn_comm. replace (c + (i - c)) with i by lia. reflexivity.
   Qed.
 
-  Definition keep (pred : K -> V -> bool) (kv : K * V) : bool := negb (pred (fst kv) (snd kv)).
+  (* a binding survives unless the predicate selects it and its key can be found (a key that is not == to itself
+     - NaN - is never found by remove) *)
+  Definition keep (pred : K -> V -> bool) (kv : K * V) : bool := negb (pred (fst kv) (snd kv) && keqb (fst kv) (fst kv)).
 
   Lemma pairs_erase_loop_ok : forall pred fuel m c, hm_inv m -> length (hnodes m) - c < fuel ->
     exists m', hm_pairs_erase_loop K V kdflt vdflt keqb khash pred fuel (it_of c) m = Ok (abs_of (skipn c (hnodes m)), m') /\
@@ -209,9 +210,22 @@ Section HM5.
     { rewrite (firstn_split_at _ (hnodes m) c i A), abs_of_app, D, app_nil_r. reflexivity. }
     rewrite skipn_skipn in F. replace (S (i - c) + c) with (S i) in F by lia.
     change (Some i) with (it_of (S i)).
-    destruct (pred (nkey nd) (nval nd)) eqn:Pq.
+    assert (forall m1, hm_inv m1 -> hnodes m1 = hnodes m ->
+              exists m', (r <- hm_pairs_erase_loop K V kdflt vdflt keqb khash pred fuel (it_of (S i)) m1 ;; Ok ((nkey nd, nval nd) :: fst r, snd r)) =
+                           Ok (abs_of (skipn c (hnodes m)), m') /\ hm_inv m' /\ length (hnodes m') = length (hnodes m) /\
+                         hm_abs m' = abs_of (firstn c (hnodes m)) ++ (nkey nd, nval nd) :: filter (keep pred) (abs_of (skipn (S i) (hnodes m)))) as KEEP.
+    { intros m1 I1 E1. destruct (IHfuel m1 (S i) I1 ltac:(rewrite E1; lia)) as (m' & -> & I' & L' & A'). rewrite E1 in *.
+      cbn [rbind fst snd]. exists m'. split; [rewrite F; reflexivity|]. split; [assumption|]. split; [assumption|].
+      rewrite A'. rewrite (firstn_split_at _ (hnodes m) i (S i) ltac:(lia)), abs_of_app, HFi.
+      replace (S i - i) with 1 by lia.
+      assert (firstn 1 (skipn i (hnodes m)) = [nd]) as ->.
+      { apply nth_error_ext; intro j. rewrite nthe_firstn, nthe_skipn, nthe_cons, nthe_nil.
+        destruct (Nat.ltb_spec j 1); destruct (Nat.eqb_spec j 0); try lia; [|reflexivity].
+        subst j. rewrite Nat.add_0_r. assumption. }
+      unfold ProofsHM2.abs_of at 2. cbn [filter]. rewrite C. cbn [map]. rewrite <- app_assoc. reflexivity. }
+    destruct (pred (nkey nd) (nval nd)) eqn:Pq; [destruct (keqb (nkey nd) (nkey nd)) eqn:Rk|].
     - (* the visited key is removed *)
-      destruct (hm_remove_ok K V kdflt vdflt keqb khash keqb_refl keqb_sym keqb_trans hash_coh m (nkey nd) Hinv)
+      destruct (hm_remove_ok K V kdflt vdflt keqb khash keqb_sym keqb_trans hash_coh m (nkey nd) Hinv)
         as (m1 & -> & I1 & HF1 & ST). cbn [rbind fst].
       assert (al_find (nkey nd) (hm_abs m) = Some (nkey nd, nval nd)) as AF.
       { destruct Hinv as (ch & fl & I). apply al_find_in; auto.
@@ -238,18 +252,20 @@ Section HM5.
         intros j x Hx. rewrite nthe_firstn in Hx |- *. destruct (Nat.ltb_spec j i); [|discriminate].
         apply KV1; [lia|assumption]. }
       exists m'. rewrite HS1. split; [rewrite F; reflexivity|]. split; [assumption|]. split; [lia|].
-      rewrite A', HF1', HS1, F. cbn [filter]. unfold keep at 2. cbn [fst snd]. rewrite Pq. reflexivity.
+      rewrite A', HF1', HS1, F. cbn [filter]. unfold keep at 2. cbn [fst snd]. rewrite Pq, Rk. reflexivity.
+    - (* the predicate selects the binding but its key is not == to itself: remove finds nothing *)
+      destruct (hm_remove_ok K V kdflt vdflt keqb khash keqb_sym keqb_trans hash_coh m (nkey nd) Hinv)
+        as (m1 & -> & I1 & HF1 & ST). cbn [rbind fst].
+      assert (al_find (nkey nd) (hm_abs m) = None) as AF.
+      { apply al_find_none. intros kv _. apply (irrefl_matches_nothing K keqb keqb_sym keqb_trans). assumption. }
+      rewrite AF in ST. subst m1.
+      destruct (KEEP m Hinv eq_refl) as (m' & -> & I' & L' & A'). exists m'.
+      split; [reflexivity|]. split; [assumption|]. split; [assumption|].
+      rewrite A', F. cbn [filter]. unfold keep at 2. cbn [fst snd]. rewrite Pq, Rk. reflexivity.
     - cbn [rbind].
-      destruct (IHfuel m (S i) Hinv ltac:(lia)) as (m' & -> & I' & L' & A').
-      cbn [rbind fst snd]. exists m'. split; [rewrite F; reflexivity|]. split; [assumption|]. split; [assumption|].
-      rewrite A', F. cbn [filter]. unfold keep at 2. cbn [fst snd]. rewrite Pq. cbn [negb].
-      rewrite (firstn_split_at _ (hnodes m) i (S i) ltac:(lia)), abs_of_app, HFi.
-      replace (S i - i) with 1 by lia.
-      assert (firstn 1 (skipn i (hnodes m)) = [nd]) as ->.
-      { apply nth_error_ext; intro j. rewrite nthe_firstn, nthe_skipn, nthe_cons, nthe_nil.
-        destruct (Nat.ltb_spec j 1); destruct (Nat.eqb_spec j 0); try lia; [|reflexivity].
-        subst j. rewrite Nat.add_0_r. assumption. }
-      unfold ProofsHM2.abs_of at 2. cbn [filter]. rewrite C. cbn [map]. rewrite <- app_assoc. reflexivity.
+      destruct (KEEP m Hinv eq_refl) as (m' & -> & I' & L' & A'). exists m'.
+      split; [reflexivity|]. split; [assumption|]. split; [assumption|].
+      rewrite A', F. cbn [filter]. unfold keep at 2. cbn [fst snd]. rewrite Pq. reflexivity.
   Qed.
 
   Lemma hm_pairs_erase_ok : forall pred m, hm_inv m ->
@@ -303,93 +319,106 @@ Section HM5.
   Qed.
 
   (* ---- one step against the association-list specification *)
-  Definition hm_R (m : hmap) (al : list (K * V)) : Prop :=
-    hm_inv m /\ keys_nodup al /\ al_same (hm_abs m) al.
+  (* the map satisfies its invariant and its bindings are, as a multiset, those of the association list *)
+  Definition hm_R (m : hmap) (al : list (K * V)) : Prop := hm_inv m /\ Permutation (hm_abs m) al.
 
   Definition ret_rel (r1 r2 : hret K V) : Prop :=
     match r1, r2 with
-    | HList _ _ l1, HList _ _ l2 => keys_nodup l1 /\ keys_nodup l2 /\ al_same l1 l2 /\ length l1 = length l2
+    | HList _ _ l1, HList _ _ l2 => Permutation l1 l2
     | _, _ => r1 = r2
     end.
 
-  Lemma R_nodup : forall m al, hm_R m al -> keys_nodup (hm_abs m).
-  Proof. intros m al ((ch & fl & I) & _). eapply abs_nodup; eauto. Qed.
-
-  Lemma al_get_same : forall a b k, al_same a b -> al_get K V keqb k a = al_get K V keqb k b.
-  Proof. intros. rewrite !al_get_find. rewrite H. reflexivity. Qed.
+  Lemma R_nodup : forall m al, hm_R m al -> keys_nodup (hm_abs m) /\ keys_nodup al.
+  Proof.
+    intros m al ((ch & fl & I) & P). pose proof (abs_nodup K V keqb khash _ _ _ I) as N. split; [assumption|].
+    eapply keys_nodup_perm; eauto.
+  Qed.
 
   Theorem hm_step_refines : forall o m al, hm_R m al ->
     hm_step K V kdflt vdflt keqb khash o m = Trap TrapOverflow \/
     exists m' r al' r', hm_step K V kdflt vdflt keqb khash o m = Ok (m', r) /\
       al_step K V vdflt keqb o al = Ok (al', r') /\ hm_R m' al' /\ ret_rel r r'.
   Proof.
-    intros o m al R. pose proof (R_nodup _ _ R) as NDm. destruct R as (I & NDa & S).
+    intros o m al R. destruct (R_nodup _ _ R) as (NDm & NDa). destruct R as (I & P).
+    pose proof (fun k => al_find_perm K V keqb keqb_sym keqb_trans _ _ k NDm P) as FP.
+    pose proof (fun k => al_get_perm K V keqb keqb_sym keqb_trans _ _ k NDm P) as GP.
     destruct o; cbn [hm_step al_step].
     - (* set *)
-      destruct (hm_set_ok K V kdflt vdflt keqb khash keqb_refl keqb_sym keqb_trans hash_coh m k v I) as [->|(m' & -> & I' & HF)]; [left; reflexivity|right].
+      destruct (hm_set_ok K V kdflt vdflt keqb khash keqb_sym keqb_trans hash_coh m k v I) as [->|(m' & -> & I' & HP)]; [left; reflexivity|right].
       cbn [rbind]. do 4 eexists. split; [reflexivity|]. split; [reflexivity|]. split; [|cbn; reflexivity].
-      split; [assumption|]. split; [apply keys_nodup_set; assumption|].
-      intros k'. rewrite HF, al_find_set by assumption. unfold stored_key. rewrite (S k), (S k'). reflexivity.
+      split; [assumption|]. eapply Permutation_trans; [exact HP|]. apply (al_set_perm K V keqb keqb_sym keqb_trans); assumption.
     - (* get *)
-      destruct (hm_get_ok K V kdflt vdflt keqb khash keqb_refl keqb_sym keqb_trans hash_coh m k I) as [->|(m' & -> & I' & HF)]; [left; reflexivity|right].
-      cbn [rbind fst snd]. rewrite al_get_find, <- (S k).
+      destruct (hm_get_ok K V kdflt vdflt keqb khash keqb_sym keqb_trans hash_coh m k I) as [->|(m' & -> & I' & HP)]; [left; reflexivity|right].
+      cbn [rbind fst snd]. rewrite al_get_find, <- (FP k).
       destruct (al_find k (hm_abs m)) as [kv|] eqn:AF; cbn [option_map].
       + do 4 eexists. split; [reflexivity|]. split; [reflexivity|]. split; [|cbn; reflexivity].
-        split; [assumption|]. split; [assumption|]. rewrite HF. assumption.
+        split; [assumption|]. eapply Permutation_trans; eauto.
       + do 4 eexists. split; [reflexivity|]. split; [reflexivity|]. split; [|cbn; reflexivity].
-        split; [assumption|]. split; [apply keys_nodup_set; assumption|].
-        intros k'. rewrite HF, al_find_set by assumption. unfold stored_key. rewrite <- (S k), AF, (S k'). reflexivity.
+        split; [assumption|]. eapply Permutation_trans; [exact HP|]. apply (al_set_perm K V keqb keqb_sym keqb_trans); assumption.
     - (* peek *)
       rewrite (hm_peek_ok K V keqb khash keqb_sym keqb_trans hash_coh m k I). right. cbn [rbind].
-      do 4 eexists. split; [reflexivity|]. split; [reflexivity|]. split; [repeat split; assumption|].
-      cbn. rewrite (al_get_same _ _ k S). reflexivity.
+      do 4 eexists. split; [reflexivity|]. split; [reflexivity|]. split; [split; assumption|].
+      cbn. rewrite (GP k). reflexivity.
     - (* has *)
       unfold hm_has. rewrite (hm_peek_ok K V keqb khash keqb_sym keqb_trans hash_coh m k I). right. cbn [rbind].
-      do 4 eexists. split; [reflexivity|]. split; [reflexivity|]. split; [repeat split; assumption|].
-      cbn. rewrite (al_get_same _ _ k S). reflexivity.
+      do 4 eexists. split; [reflexivity|]. split; [reflexivity|]. split; [split; assumption|].
+      cbn. rewrite (GP k). reflexivity.
     - (* has_and_get *)
       rewrite (hm_peek_ok K V keqb khash keqb_sym keqb_trans hash_coh m k I). right. cbn [rbind].
-      do 4 eexists. split; [reflexivity|]. split; [reflexivity|]. split; [repeat split; assumption|].
-      rewrite (al_get_same _ _ k S). destruct (al_get K V keqb k al); cbn; reflexivity.
+      do 4 eexists. split; [reflexivity|]. split; [reflexivity|]. split; [split; assumption|].
+      rewrite (GP k). destruct (al_get K V keqb k al); cbn; reflexivity.
     - (* remove *)
-      destruct (hm_remove_ok K V kdflt vdflt keqb khash keqb_refl keqb_sym keqb_trans hash_coh m k I) as (m' & -> & I' & HF & _). right.
+      destruct (hm_remove_ok K V kdflt vdflt keqb khash keqb_sym keqb_trans hash_coh m k I) as (m' & -> & I' & HA & _). right.
       cbn [rbind fst snd]. do 4 eexists. split; [reflexivity|]. split; [reflexivity|].
-      split; [|cbn; rewrite (al_get_same _ _ k S); reflexivity].
-      split; [assumption|]. split; [apply keys_nodup_remove; assumption|].
-      intros k'. rewrite HF, al_find_remove by assumption. rewrite (S k'). reflexivity.
+      split; [|cbn; rewrite (GP k); reflexivity].
+      split; [assumption|]. rewrite HA. apply (al_remove_perm K V keqb keqb_sym keqb_trans); assumption.
     - (* erase *)
-      destruct (hm_remove_ok K V kdflt vdflt keqb khash keqb_refl keqb_sym keqb_trans hash_coh m k I) as (m' & -> & I' & HF & _). right.
+      destruct (hm_remove_ok K V kdflt vdflt keqb khash keqb_sym keqb_trans hash_coh m k I) as (m' & -> & I' & HA & _). right.
       cbn [rbind fst snd]. do 4 eexists. split; [reflexivity|]. split; [reflexivity|].
-      split; [|cbn; rewrite (al_get_same _ _ k S); reflexivity].
-      split; [assumption|]. split; [apply keys_nodup_remove; assumption|].
-      intros k'. rewrite HF, al_find_remove by assumption. rewrite (S k'). reflexivity.
+      split; [|cbn; rewrite (GP k); reflexivity].
+      split; [assumption|]. rewrite HA. apply (al_remove_perm K V keqb keqb_sym keqb_trans); assumption.
     - (* clear *)
       right. destruct (hm_clear_ok m I) as (I' & A). do 4 eexists. split; [reflexivity|]. split; [reflexivity|].
-      split; [|cbn; reflexivity]. split; [assumption|]. split; [constructor|]. rewrite A. intros k'. reflexivity.
+      split; [|cbn; reflexivity]. split; [assumption|]. rewrite A. constructor.
     - (* reserve *)
       destruct (hm_reserve_op n m I) as [->|(m' & -> & I' & A)]; [left; reflexivity|right]. cbn [rbind].
       do 4 eexists. split; [reflexivity|]. split; [reflexivity|]. split; [|cbn; reflexivity].
-      split; [assumption|]. split; [assumption|]. rewrite A. assumption.
+      split; [assumption|]. rewrite A. assumption.
     - (* rehash *)
       destruct (hm_rehash_op n m I) as [->|(m' & -> & I' & A)]; [left; reflexivity|right]. cbn [rbind].
       do 4 eexists. split; [reflexivity|]. split; [reflexivity|]. split; [|cbn; reflexivity].
-      split; [assumption|]. split; [assumption|]. rewrite A. assumption.
+      split; [assumption|]. rewrite A. assumption.
     - (* removal while iterating *)
       destruct (hm_pairs_erase_ok p m I) as (m' & -> & I' & A). right. cbn [rbind fst snd].
-      do 4 eexists. split; [reflexivity|]. split; [reflexivity|]. split.
-      + split; [assumption|]. split; [apply keys_nodup_filter; assumption|].
-        intros k'. rewrite A. change (fun kv : K * V => negb (p (fst kv) (snd kv))) with (keep p).
-        rewrite !al_find_filter by assumption. rewrite (S k'). reflexivity.
-      + cbn. split; [assumption|]. split; [assumption|]. split; [assumption|].
-        apply (al_same_length K V keqb keqb_refl keqb_sym keqb_trans); assumption.
+      do 4 eexists. split; [reflexivity|]. split; [reflexivity|]. split; [|cbn; assumption].
+      split; [assumption|]. rewrite A. apply filter_perm. assumption.
     - (* pairs *)
       rewrite hm_pairs_ok. right. cbn [rbind]. do 4 eexists. split; [reflexivity|]. split; [reflexivity|].
-      split; [repeat split; assumption|]. cbn. split; [assumption|]. split; [assumption|]. split; [assumption|].
-      apply (al_same_length K V keqb keqb_refl keqb_sym keqb_trans); assumption.
+      split; [split; assumption|]. cbn. assumption.
     - (* mpairs update *)
       right. destruct (hm_mapvals_ok f m I) as (I' & A). do 4 eexists. split; [reflexivity|]. split; [reflexivity|].
-      split; [|cbn; reflexivity]. split; [assumption|]. split; [apply keys_nodup_mapvals; assumption|].
-      intros k'. rewrite A. fold (mapvals f al). rewrite !al_find_mapvals. rewrite (S k'). reflexivity.
+      split; [|cbn; reflexivity]. split; [assumption|]. rewrite A. apply Permutation_map. assumption.
+  Qed.
+
+
+  (* ---- keys that are not == to themselves (NaN floats): never found, every assignment adds a binding *)
+  Theorem hm_irrefl_key : forall m k v, hm_inv m -> keqb k k = false ->
+    hm_peek K V keqb khash k m = Ok None /\
+    (exists m', hm_remove K V kdflt vdflt keqb khash k m = Ok (m', None) /\ hm_abs m' = hm_abs m) /\
+    (hm_set K V kdflt vdflt keqb khash k v m = Trap TrapOverflow \/
+     exists m', hm_set K V kdflt vdflt keqb khash k v m = Ok m' /\ hm_inv m' /\ Permutation (hm_abs m') ((k, v) :: hm_abs m)).
+  Proof.
+    intros m k v I Hk.
+    assert (al_find k (hm_abs m) = None) as AF.
+    { apply al_find_none. intros kv _. apply (irrefl_matches_nothing K keqb keqb_sym keqb_trans). assumption. }
+    split; [|split].
+    - rewrite (hm_peek_ok K V keqb khash keqb_sym keqb_trans hash_coh m k I), al_get_find, AF. reflexivity.
+    - destruct (hm_remove_ok K V kdflt vdflt keqb khash keqb_sym keqb_trans hash_coh m k I) as (m' & E & _ & HA & _).
+      rewrite al_get_find, AF in E. exists m'. split; [exact E|]. rewrite HA. apply al_remove_none. assumption.
+    - destruct (hm_set_ok K V kdflt vdflt keqb khash keqb_sym keqb_trans hash_coh m k v I) as [->|(m' & -> & I' & HP)]; [left; reflexivity|right].
+      exists m'. split; [reflexivity|]. split; [assumption|].
+      rewrite (al_set_none K V keqb k v _ AF) in HP. eapply Permutation_trans; [exact HP|].
+      apply Permutation_sym. apply Permutation_cons_append.
   Qed.
 
   (* ---- whole histories *)
@@ -419,5 +448,5 @@ Section HM5.
   Qed.
 
   Lemma hm_R_empty : hm_R (hm_empty K V) [].
-  Proof. destruct hm_empty_inv as (I & A). split; [assumption|]. split; [constructor|]. rewrite A. intros k; reflexivity. Qed.
+  Proof. destruct hm_empty_inv as (I & A). split; [assumption|]. rewrite A. constructor. Qed.
 End HM5.
